@@ -23,6 +23,8 @@ class World(object):
         self.gen = G.Gen()
         self.seen = []
         rets = [S.texpr(t) for t in case['rets']]
+        for t in list(case['rets']) + [f['t'] for f in case['args']]:
+            S.register_subs(self.gen, t)
         kw = {}
         if case['style'] in ('bare', 'out_bare'):
             kw['_body_style'] = case['style']
